@@ -692,6 +692,7 @@ let ll_tables_of_sx = function
   | L [L prods; L autos; st; k; nterm; nnt] ->
     let prod = function
       | L [l; L rev] -> { LLParser.p_lhs = n_of_int (int_of_sx l); p_rev = Stdlib.List.map (fun x -> sym_of_int (int_of_sx x)) rev; p_push = false }
+      | L [l; L rev; push] -> { LLParser.p_lhs = n_of_int (int_of_sx l); p_rev = Stdlib.List.map (fun x -> sym_of_int (int_of_sx x)) rev; p_push = (int_of_sx push = 1) }
       | _ -> failwith "ll prod" in
     let auto = function L [p0; kk; L trs] -> dfa_of_sx (L [p0; kk; L trs]) | _ -> failwith "ll auto" in
     { LLParser.tb_prods = Stdlib.List.map prod prods; tb_automata = Stdlib.List.map auto autos; tb_start = n_of_int (int_of_sx st);
@@ -782,6 +783,149 @@ let c01 = function
        | [] -> Printf.sprintf "OK %d ll-ok" (if !nontrivial > 0 then 1 else 0)
        | (k, w) :: _ -> Printf.sprintf "FAIL key=%s on input %s (%d problem runs)" k w (Stdlib.List.length !problems))
     end
+  | _ -> "FAIL malformed case"
+
+(* C20: option matrix *)
+let group_runs (runs : Sexp.t list) : (string * Sexp.t list) list =
+  let order = ref [] in
+  let tbl = Hashtbl.create 64 in
+  Stdlib.List.iter (fun r ->
+      match r with
+      | L (toks :: _) ->
+        let k = Sexp.to_string toks in
+        (match Hashtbl.find_opt tbl k with
+         | Some l -> Hashtbl.replace tbl k (r :: l)
+         | None -> order := k :: !order; Hashtbl.replace tbl k [r])
+      | _ -> ()) runs;
+  Stdlib.List.rev_map (fun k -> (k, Stdlib.List.rev (Hashtbl.find tbl k))) !order
+
+(* comment runs: (toks rc tr ok acts comments); all runs of one input must agree on (ok, acts, comments) *)
+let comment_runs_agree (cruns : Sexp.t list) (add : string -> string -> unit) =
+  Stdlib.List.iter (fun (ws, rs) ->
+      let obs = Stdlib.List.filter_map (fun r ->
+          match r with
+          | L [_; _; _; A "panic"] -> add "parser-panic" ws; None
+          | L [_; _; tr; ok; acts; cms] -> Some (int_of_sx tr, (Sexp.to_string ok, Sexp.to_string acts, Sexp.to_string cms))
+          | _ -> add "malformed-run" ws; None) rs in
+      match obs with
+      | [] -> ()
+      | (_, (ok0, a0, c0)) :: rest ->
+        Stdlib.List.iter (fun (tr, (ok, a, c)) ->
+            if ok <> ok0 then add "option-changes-verdict" ws
+            else if ok0 <> "1" then ()   (* rejected: a recovering run legitimately goes on and performs more callbacks *)
+            else if a <> a0 then add "option-changes-actions" ws
+            else if c <> c0 then add (if tr = 1 then "trim-changes-comment-callbacks" else "option-changes-comment-callbacks") ws) rest) (group_runs cruns)
+
+let c20_ll = function
+  | [_; _; L [A "panic"]] -> "FAIL key=panic the LL(k) pipeline panicked"
+  | [_; _; L [A why]] -> "OK 0 " ^ why
+  | [_; _; L (A "built" :: _ :: tb :: L runs :: L cruns :: more_built)] ->
+    let tb' = ll_tables_of_sx tb in
+    let npush = Stdlib.List.length (Stdlib.List.filter (fun p -> p.LLParser.p_push) tb'.LLParser.tb_prods) in
+    ignore more_built;
+    if not (LLParser.tables_ok tb') then "FAIL key=tables-not-ok the generated LL tables fail tables_ok"
+    else begin
+      let problems = ref [] and nontrivial = ref 0 in
+      let add k w = problems := (k, w) :: !problems in
+      let model opts w =
+        let rec go fuel tries =
+          (match LLParser.ll_run (nat_of_int fuel) tb' opts w with
+           | LLParser.OutOfFuel when tries > 0 -> go (fuel * 4) (tries - 1)
+           | r -> r) in
+        go (4 * Stdlib.List.length w + 64) 4 in
+      Stdlib.List.iter (fun (ws, rs) ->
+          let w = (match rs with L (toks :: _) :: _ -> ns_of_sx toks | _ -> []) in
+          let mk rc tr dp = { LLParser.o_recovery = rc; o_trim = tr; o_max_depth = dp } in
+          let base = model (mk true false None) w in
+          (* model peak: the least limit under which the model accepts *)
+          let peak, macts = (match base with
+              | LLParser.Accepted (acts, _) ->
+                let rec find m = if m > 400 then None else
+                    (match model (mk false false (Some (n_of_int m))) w with
+                     | LLParser.Accepted _ -> Some m
+                     | _ -> find (m + 1)) in
+                (find 0, Some (Stdlib.List.map (fun (p, cs) -> [int_of_n p; Stdlib.List.length cs]) acts))
+              | _ -> (None, None)) in
+          let below = ref false and above = ref false in
+          Stdlib.List.iter (fun r ->
+              match r with
+              | L [_; _; _; _; A "panic"] -> add "parser-panic" ws
+              | L (_ :: rc :: tr :: dp :: verdict :: more) ->
+                let limit = (match dp with A "none" -> None | d -> Some (int_of_sx d)) in
+                let real_ok = (verdict = A "ok") in
+                let depth_err = (verdict = L [A "err"; L [A "depth"]]) in
+                let real_acts = (match more with L acts :: _ -> Stdlib.List.map ints_of_sx acts | _ -> []) in
+                ignore rc; ignore tr;
+                (match base, peak, macts with
+                 | LLParser.Accepted _, Some d, Some ma ->
+                   let fits = (match limit with None -> true | Some m -> m >= d) in
+                   if fits then begin
+                     (match limit with Some _ -> above := true | None -> ());
+                     if depth_err then add "depth-error-although-limit-not-reached" ws
+                     else if not real_ok then add "option-changes-verdict" ws
+                     else if real_acts <> ma then add "option-changes-actions" ws
+                   end else begin
+                     below := true;
+                     if real_ok then add "depth-limit-not-enforced" ws
+                     else if not depth_err then add "depth-limit-exceeded-without-depth-error" ws
+                   end
+                 | LLParser.Accepted _, _, _ -> ()
+                 | (LLParser.Rejected _ | LLParser.DepthExceeded), _, _ ->
+                   if real_ok then add "option-changes-verdict" ws
+                 | LLParser.Panic _, _, _ -> add "model-panic" ws
+                 | _, _, _ -> ())
+              | _ -> add "malformed-run" ws) rs;
+          if !below && !above && Stdlib.List.length w >= 2 then incr nontrivial) (group_runs runs);
+      comment_runs_agree cruns add;
+      (match Stdlib.List.rev !problems with
+       | [] -> Printf.sprintf "OK %d ll-options%s" (if !nontrivial > 0 then 1 else 0) (if npush > 0 then "-push-productions" else "")
+       | (k, w) :: _ -> Printf.sprintf "FAIL key=%s LL(k) on input %s (%d problem runs)" k w (Stdlib.List.length !problems))
+    end
+  | _ -> "FAIL malformed case"
+
+let c20_lr = function
+  | [_; L [A why]] -> "OK 0 " ^ why
+  | [_; L [A "built"; _; tb; _; L runs; L cruns]] ->
+    let tb' = lr_table_of_sx tb in
+    let nstates = Stdlib.List.length tb'.LRParser.lr_states in
+    let problems = ref [] and nontrivial = ref 0 and skipped = ref 0 in
+    let add k w = problems := (k, w) :: !problems in
+    Stdlib.List.iter (fun (ws, rs) ->
+        let w = (match rs with L (toks :: _) :: _ -> ns_of_sx toks | _ -> []) in
+        let fuel = nat_of_int ((Stdlib.List.length w + 2) * (nstates + 2) * 4 + 20) in
+        let base = LRParser.lr_run fuel tb' w in
+        if base = LRParser.OutOfFuel then incr skipped      (* non-terminating (cyclic grammar): C19 / C04 *)
+        else begin
+          let d = int_of_nat (LROptions.lr_run_peak fuel tb' w) in
+          let below = ref false and above = ref false in
+          Stdlib.List.iter (fun r ->
+              match r with
+              | L [_; _; _; A "panic"] -> add "parser-panic" ws
+              | L (_ :: tr :: dp :: verdict :: more) ->
+                let limit = (match dp with A "none" -> None | x -> Some (int_of_sx x)) in
+                let real_calls = (match more with L acts :: _ -> Stdlib.List.map ints_of_sx acts | _ -> []) in
+                let o = { LROptions.lo_trim = (int_of_sx tr = 1); lo_max_depth = (match limit with None -> None | Some m -> Some (n_of_int m)) } in
+                (match limit with Some m when m < d -> below := true | Some _ -> above := true | None -> ());
+                (match LROptions.lr_run_opts fuel tb' o w, verdict with
+                 | LROptions.AcceptedO (calls, _), A "ok" ->
+                   if Stdlib.List.map (fun (p, args) -> [int_of_n p; Stdlib.List.length args]) calls <> real_calls then add "actions-differ-from-model" ws
+                 | LROptions.AcceptedO _, L [A "err"; L [A "depth"]] -> add "depth-error-although-limit-not-reached" ws
+                 | LROptions.AcceptedO _, _ -> add "option-changes-verdict" ws
+                 | LROptions.DepthExceeded _, L [A "err"; L [A "depth"]] -> ()
+                 | LROptions.DepthExceeded _, A "ok" -> add "depth-limit-not-enforced" ws
+                 | LROptions.DepthExceeded _, _ -> add "depth-limit-exceeded-without-depth-error" ws
+                 | LROptions.RejectedO, A "ok" -> add "option-changes-verdict" ws
+                 | LROptions.RejectedO, L [A "err"; L [A "depth"]] -> add "depth-error-although-limit-not-reached" ws
+                 | LROptions.RejectedO, _ -> ()
+                 | LROptions.OutOfFuelO, _ -> ()
+                 | (LROptions.InternalErrO _ | LROptions.PanicO _), _ -> add "model-panic" ws)
+              | _ -> add "malformed-run" ws) rs;
+          (match base with LRParser.Accepted _ when !below && !above && Stdlib.List.length w >= 2 -> incr nontrivial | _ -> ())
+        end) (group_runs runs);
+    if !skipped = 0 then comment_runs_agree cruns add;
+    (match Stdlib.List.rev !problems with
+     | [] -> Printf.sprintf "OK %d lr-options%s" (if !nontrivial > 0 then 1 else 0) (if !skipped > 0 then " nonterminating-inputs-skipped" else "")
+     | (k, w) :: _ -> Printf.sprintf "FAIL key=%s LR on input %s (%d problem runs)" k w (Stdlib.List.length !problems))
   | _ -> "FAIL malformed case"
 
 (* C29 *)
@@ -954,7 +1098,8 @@ let dispatch (sx : Sexp.t) : string =
   | L (A "pipe" :: args) -> c26 args
   | L (A "tix" :: args) -> c18 args
   | L (A "diag" :: args) -> c29 args
-  | L (A "ll" :: args) -> c01 args
+  | L (A "ll" :: args) -> if prop = "C20" then c20_ll args else c01 args
+  | L (A "lro" :: args) -> c20_lr args
   | L (A "p2o" :: args) -> c30_p2o args
   | L (A "mode" :: args) -> c16_mode args
   | L [A "modes"; _; A "rejected"] -> "OK 0 grammar-rejected"
